@@ -7,6 +7,7 @@
 #include "lm_common.h"
 #include "recon_common.h"
 #include "stir/TimeFrameDefinitions.h"
+#include "stir/DetectorCoordinateMap.h"
 #include "stir/ProjDataInMemory.h"
 #include "stir/recon_buildblock/PoissonLogLikelihoodWithLinearModelForMeanAndListModeDataWithProjMatrixByBin.h"
 #include "stir/recon_buildblock/BinNormalisationFromProjData.h"
@@ -44,6 +45,7 @@ struct World
   std::vector<double> mark_times; // seconds of every time mark, in order
   bool has_delayeds = true;
   double t_end = 0;
+  shared_ptr<const DetectorCoordinateMap> index_map; // set for sources that store crystal indices (SAFIR files)
 };
 
 inline World
